@@ -50,9 +50,9 @@ def run(ctx):
                 v = float(ook.theory_BER(2 * k * s, s, s))
             events.append({"kind": "qpoint", "fn": "ook.theory_BER(2ks,s,s)", "k": k, "val": sci(v), "slack": 100000 if k <= 6 else 300000})
             meta.append(("qpoint", "ook", k))
-            if 1 <= k <= 6:          # the soft formula is 1 - (integral): absolute resolution ~1e-16, so only values >= 1e-9 are compared
+            if 1 <= k <= 4:          # the soft formula is 1 - quad(...): scipy's quad has absolute tolerance 1.5e-8, so only values >= 1e-5 are compared
                 v2 = float(ppm.theory_BER(5 * k * s, 3 * s, 4 * s, 2, "soft"))
-                events.append({"kind": "qpoint", "fn": "ppm.theory_BER(5ks,3s,4s,M=2,soft)", "k": k, "val": sci(v2), "slack": 10000})
+                events.append({"kind": "qpoint", "fn": "ppm.theory_BER(5ks,3s,4s,M=2,soft)", "k": k, "val": sci(v2), "slack": 300000})
                 meta.append(("qpoint", "ppm", k))
             ctx.case(("qpoint", k, s), {"ook.theory_BER": [2 * k * s, s, s], "->": v})
     # ---- general two-level points: relations through API programs only
@@ -74,11 +74,11 @@ def run(ctx):
                 leq("ook=error-integral-on-grid", v, err(r) * (1 + 1e-7))
             soft = float(ppm.theory_BER(mu, s0, s1, M, "soft"))
             hard = float(ppm.theory_BER(mu, s0, s1, M, "hard"))
-            leq("ppm-soft<=hard", soft, hard * (1 + 1e-6) + 1e-15)
+            leq("ppm-soft<=hard", soft, hard * (1 + 1e-6) + 3e-8)           # quad: absolute tolerance 1.5e-8
             for b in (soft, hard, v if M == 2 else soft):
                 leq("bounded-by-M/(2(M-1))", b, M / (2 * (M - 1)) * (1 + 1e-9))
-            if M == 2 and soft > 1e-9:
-                eq("ppm-soft-M2=Q", soft, float(ut.Q(mu / math.sqrt(s0 ** 2 + s1 ** 2))), tol=10000)
+            if M == 2:
+                eq("ppm-soft-M2=Q", soft + 1e-3, float(ut.Q(mu / math.sqrt(s0 ** 2 + s1 ** 2))) + 1e-3, tol=3000)          # |a-b| <= 3e-8 + 3e-5 b
             # vectorisation
             arr = ook.theory_BER(np.array([mu, 2 * mu]), s0, s1)
             eq("vectorises-elementwise", float(arr[0]), v)
@@ -89,8 +89,10 @@ def run(ctx):
             ladder = [mu * f for f in (0.5, 0.8, 1.0, 1.3, 2.0)]
             for fn, name in ((lambda m: ook.theory_BER(m, s0, s1), "ook"), (lambda m: ppm.theory_BER(m, s0, s1, M, "soft"), "soft"), (lambda m: ppm.theory_BER(m, s0, s1, M, "hard"), "hard")):
                 vals = [float(fn(m)) for m in ladder]
+                if name == "soft":
+                    vals = [x + 1e-3 for x in vals]          # absolute accuracy of quad (1.5e-8): compared with slack 3e-5 of 1e-3
                 if min(vals) > 1e-200:
-                    events.append({"kind": "mono", "name": "BER-non-increasing-in-mu", "seq": [sci(x) for x in vals]})
+                    events.append({"kind": "mono", "name": "BER-non-increasing-in-mu", "seq": [sci(x) for x in vals], "slack": 3000 if name == "soft" else 2})
                     meta.append(("mono", name))
             # estimators / thresholds on eye statistics: translation invariance
             mu0, c = rnd.uniform(-1, 1), rnd.uniform(-5, 5)
@@ -169,16 +171,29 @@ def run(ctx):
                     dec = rnd.choice(["soft", "hard"])
                     ref = float(ppm.theory_BER(d, s0_, s1_, M, dec))
                     got = float(ut.theory_BER(P, "ppm", M, dec, ER=ER, amplify=amp, f0=f0, G=Gt, NF=NF, BW_opt=BWopt, r=r_, BW_el=BWel, R_L=RL, T=Tk, NF_el=NFel))
-                if ref > 1e-200 and got > 1e-200:
-                    eq("utils.theory_BER=error-integral-on-model-levels-and-variances", got, ref, tol=3000000)
+                if ref > 1e-9 and got > 1e-9:        # deeper in the tail the 1000- and 5000-point threshold grids differ by more than a few %
+                    eq("utils.theory_BER=error-integral-on-model-levels-and-variances", got, ref, tol=6000000)
             # decreasing with received power
             Ps = [P - 6, P - 3, P, min(P + 3, 0)]
             seq = [float(ut.theory_BER(p_, mod, M, "soft" if mod == "ppm" else None, ER=ER, amplify=amp, f0=f0, G=G if amp else None, NF=NF if amp else None,
                                        BW_opt=BWopt if amp else None, r=r_, BW_el=BWel, R_L=RL, T=Tk)) for p_ in Ps]
             if min(seq) > 1e-200:
-                events.append({"kind": "mono", "name": "BER-decreases-with-received-power", "seq": [sci(x) for x in seq]})
+                events.append({"kind": "mono", "name": "BER-decreases-with-received-power", "seq": [sci(x + (1e-3 if mod == "ppm" else 0)) for x in seq], "slack": 3000 if mod == "ppm" else 2})
                 meta.append(("mono", "power"))
         ctx.case(("receiver", mod, Mm, amp, ER == np.inf), {"P_avg": P, "mod": mod, "M": M, "ER": ER, "amplify": amp})
+    # shot-noise dominated receivers (cold, high load resistance): the mutual-consistency equality where the shot term decides the BER
+    for it in range(6 if T else 3):
+        Tk, RL, BWel, r_ = [1.0, 4.0, 2.0][it % 3], [1e4, 3e3, 1e4][it % 3], [1e10, 5e9, 2e10][it % 3], 1.0
+        for P in range(-62, -24, 2):
+            for mod, M in (("ook", 2), ("ppm", 4)):
+                mu_t, _ = ut.average_voltages(P, mod, M, np.inf, False, 1550e-9, 0.0, 5.0, 1e12, r_, RL)
+                S_t = ut.noise_variances(P, mod, M, np.inf, False, 1550e-9, 0.0, 5.0, 1e12, r_, BWel, RL, Tk, 0.0)
+                d, s0_, s1_ = float(mu_t[1] - mu_t[0]), float(S_t[0]) ** 0.5, float(S_t[1]) ** 0.5
+                ref = float(ook.theory_BER(d, s0_, s1_)) if mod == "ook" else float(ppm.theory_BER(d, s0_, s1_, M, "hard"))
+                if 1e-8 < ref < 1e-2:
+                    got = float(ut.theory_BER(P, mod, M, "hard" if mod == "ppm" else None, ER=np.inf, amplify=False, r=r_, BW_el=BWel, R_L=RL, T=Tk, NF_el=0.0))
+                    eq("utils.theory_BER=error-integral-on-model-levels-and-variances", got, ref, tol=6000000)
+                    ctx.case(("receiver-shot-dominated", mod, it % 3), {"P_avg": P, "T": Tk, "R_L": RL, "shot/thermal variance": float(S_t[1] / max(S_t[0], 1e-300))})
     # the statement puts the electrical noise figure on the thermal term only (as PD does): NF_el != 0
     for it in range(6):
         P, RL, Tk, BWel, NFel = -30.0 + it, 50.0, 300.0, 5e9, 3.0 + it
